@@ -158,6 +158,62 @@ impl Check for Analyses {
     fn rule(&self) -> String {
         "random program over {p/0,p/1,q/0,q/1,r/1,r/2} (equal names at different arities, all signs, choice heads, constraints, all term operators); oracle: is_tight() == acyclicity of the positive dependency graph computed independently over (name, arity) nodes, is_regular() == an independent implementation of the documented definition (unary minus read as 0 - t); 1 case in 400 also goes through `anthem analyze`; non-trivial = the dependency graph has at least one edge; distinct by program text; labels = tight/non-tight, regular/irregular".into()
     }
+    fn exhaustive(&self, tier: Tier) -> Vec<Case> {
+        // all programs of one rule, and of two rules (second rule with at most one body literal in
+        // the quick tier), over the atoms p, q, p(X), three signs, basic/choice/constraint heads
+        let x = asp::Term::Variable(asp::Variable("X".into()));
+        let atoms = vec![
+            asp::Atom { predicate_symbol: "p".into(), terms: vec![] },
+            asp::Atom { predicate_symbol: "q".into(), terms: vec![] },
+            asp::Atom { predicate_symbol: "p".into(), terms: vec![x] },
+        ];
+        let signs = [asp::Sign::NoSign, asp::Sign::Negation, asp::Sign::DoubleNegation];
+        let mut literals = vec![];
+        for a in &atoms {
+            for s in &signs {
+                literals.push(asp::AtomicFormula::Literal(asp::Literal { sign: s.clone(), atom: a.clone() }));
+            }
+        }
+        let mut bodies: Vec<Vec<asp::AtomicFormula>> = vec![vec![]];
+        for l in &literals {
+            bodies.push(vec![l.clone()]);
+        }
+        let short = bodies.len();
+        for l in &literals {
+            for m in &literals {
+                bodies.push(vec![l.clone(), m.clone()]);
+            }
+        }
+        let mut heads = vec![asp::Head::Falsity];
+        for a in &atoms {
+            heads.push(asp::Head::Basic(a.clone()));
+            heads.push(asp::Head::Choice(a.clone()));
+        }
+        let rule = |h: &asp::Head, b: &Vec<asp::AtomicFormula>| asp::Rule {
+            head: h.clone(),
+            body: asp::Body { formulas: b.clone() },
+        };
+        let mut rules = vec![];
+        for h in &heads {
+            for b in &bodies {
+                rules.push(rule(h, b));
+            }
+        }
+        let mut second = vec![];
+        for h in &heads {
+            for b in bodies.iter().take(if tier == Tier::Thorough { bodies.len() } else { short }) {
+                second.push(rule(h, b));
+            }
+        }
+        let mut out = vec![];
+        for r in &rules {
+            out.push(Case { program: asp::Program { rules: vec![r.clone()] }, via_cli: false });
+            for r2 in &second {
+                out.push(Case { program: asp::Program { rules: vec![r.clone(), r2.clone()] }, via_cli: false });
+            }
+        }
+        out
+    }
     fn run(&self, case: &Case) -> Outcome {
         let text = safe_print::asp_program(&case.program, &Style::plain());
         let g = positive_dependency_graph(&case.program);
